@@ -788,7 +788,7 @@ PRED_LOOP_SORTED = [
 R23WHY = 'operator on model::Value (impl ops::Add/Sub/Mul/Div/Rem/Neg in model.rs) -> assumed context-free callee returning a Number'
 R_PAIR = Rule('R28', r'for \((\w+), (\w+)\) in (\w+\.operations\(\)) \{', r'for __p in \3 /*@loop*/ { let (\1, \2) = (&__p.0, &__p.1);',
               'tuple pattern in a for loop over &[(A, B)] -> explicit projections (Verus accepts only a variable there)')
-R_DEDUP = Rule('R29', r'let mut set = HashSet::new\(\);\s*nodes\.retain\(\|v\| set\.insert\(v\.order\(\)\)\);', 'shim_dedup_by_order(&mut nodes);',
+R_DEDUP = Rule('R29', r'let mut set = HashSet::new\(\);\s*(nodes|collected)\.retain\(\|v\| set\.insert\(v\.order\(\)\)\);', lambda m: f'shim_dedup_by_order(&mut {m.group(1)});' + '\n' * m.group(0).count('\n'),
                'HashSet + Vec::retain with a side-effecting closure -> shim whose contract is "keep the first node of every order key"')
 R_SORT = Rule('R30', r'(\w+)\.sort_by_cached_key\(\|v\| v\.order\(\)\);', r'shim_sort_by_order(&mut \1);', 'Vec::sort_by_cached_key(order) -> shim: ascending permutation')
 R_REVERSE = Rule('R31', r'nodes\.reverse\(\);', 'shim_reverse(&mut nodes);', 'Vec::reverse -> shim')
@@ -876,7 +876,7 @@ def build(repo=None):
         rules=[R_FLAT, R_SORT],
         loops={0: dict(invariant=[('C19:ctx', 'same_ctx(*context, *old(context))')])})
     fns['eval_loc_expr'] = Fn(
-        FE, None, 'eval_loc_expr', props=P, safety_props=['C06'], attrs=[NODEC], ensures=[C19], rules=[R_PAIR, R_FLAT],
+        FE, None, 'eval_loc_expr', props=P, safety_props=['C06'], attrs=[NODEC], ensures=[C19], rules=[R_PAIR, R_FLAT, R_DEDUP],
         loops={0: dict(invariant=[('C19:ctx', 'same_ctx(*context, *old(context))')]),
                1: dict(invariant=[('C19:ctx', 'same_ctx(*context, *old(context))')]),
                2: dict(invariant=[('C19:ctx', 'same_ctx(*context, *old(context))')])})
